@@ -425,6 +425,7 @@ def id_book(b):
     an internal id whether its resource resolves that id to the object.  A save may ADD entries (uuid mode gives ids
     to objects without one); whatever was there before must still be there afterwards."""
     keys = [set(map(str, getattr(r, 'uuid_dict', {}))) for r in b.resources]
+    keys = _Keys(keys, [bool(getattr(r, 'use_uuid', False)) for r in b.resources])
     resolves = {}
     for i, o in enumerate(b.universe):
         r, iid = o.eResource, getattr(o, '_internal_id', None)
@@ -437,11 +438,21 @@ def id_book(b):
     return keys, resolves
 
 
+class _Keys(list):
+    def __init__(self, keys, uuid_modes):
+        super().__init__(keys)
+        self.uuid_modes = uuid_modes
+
+
 def id_book_lost(before, after):
-    """-> description of an id entry that a save took away, or None."""
+    """-> description of an id entry that a save took away - or, for a resource that is NOT in uuid mode (a save has
+    no id to hand out there), of any change of its id table -, or None."""
     for ri, (k0, k1) in enumerate(zip(before[0], after[0])):
         if k0 - k1:
             return f'uuid_dict of resource {ri} lost {len(k0 - k1)} of its {len(k0)} keys'
+        if k1 - k0 and not before[0].uuid_modes[ri] and not after[0].uuid_modes[ri]:
+            return (f'save wrote {len(k1 - k0)} new key(s) into the id table (uuid_dict) of resource {ri}, which is not '
+                    f'in uuid mode: {sorted(k1 - k0)[:3]}')
     for i, ok in before[1].items():
         if ok and not after[1].get(i, False):
             return f'object {i} is no longer found by resolve(<its id>) in its resource'
@@ -1023,6 +1034,7 @@ def _twores_mm():
     Catalogue, Storage, Book, Shelf = EClass('Catalogue'), EClass('Storage'), EClass('Book'), EClass('Shelf')
     Book.eStructuralFeatures.append(EAttribute('name', EString))
     Shelf.eStructuralFeatures.append(EAttribute('name', EString))
+    Shelf.eStructuralFeatures.append(EAttribute('code', EString, iD=True))     # references to it are written by id
     Catalogue.eStructuralFeatures.append(EReference('books', Book, upper=-1, containment=True))
     Storage.eStructuralFeatures.append(EReference('shelves', Shelf, upper=-1, containment=True))
     shelf = EReference('shelf', Shelf)                               # single <-> many, across the two files
@@ -1107,6 +1119,9 @@ def twores_scenarios(ctx, out):
         r_cat.append(cat)
         r_store.append(store)
         shelves = [mm['Shelf'](name=f's{i}') for i in range(hist['n_shelves'])]
+        for i, sh in enumerate(shelves):
+            if i % 2 == 0:
+                sh.code = f'c{i}'           # every second shelf has an id
         store.shelves.extend(shelves)
         for i, bk in enumerate(hist['books']):
             b = mm['Book'](name=f'a{i}')
@@ -1169,6 +1184,7 @@ def twores_scenarios(ctx, out):
                 count = [0]
                 observers = [EObserver(o, notifyChanged=lambda n, c=count: c.__setitem__(0, c[0] + 1)) for o in objs]
                 st0 = _twores_state(objs)
+                tables0 = [(r, set(map(str, r.uuid_dict))) for r in set(rs.resources.values()) if not r.use_uuid]
                 try:
                     res.save() if tgt is None else res.save(output=URI(tgt))
                     err = None
@@ -1184,6 +1200,11 @@ def twores_scenarios(ctx, out):
                 if count[0]:
                     out.fail(sig('purity', fmt, 'two-resources'), f'save #{oi} ({op}, state {hist["state"]}) sent '
                              f'{count[0]} notification(s)', case)
+                for r, k0 in tables0:
+                    if not r.use_uuid and set(map(str, r.uuid_dict)) != k0:
+                        out.fail(sig('purity', fmt, 'two-resources'), f'save #{oi} ({op}, state {hist["state"]}) changed '
+                                 f'the id table of {os.path.basename(r.uri.plain)} (not in uuid mode): '
+                                 f'{sorted(k0)} -> {sorted(map(str, r.uuid_dict))}', case)
                 if st0 != st1:
                     x = next((a, b) for a, b in zip(st0, st1) if a != b)
                     fx = next(((p, q) for p, q in zip(x[0][1], x[1][1]) if p != q), ('container/resource', ''))
@@ -1215,8 +1236,66 @@ def twores_scenarios(ctx, out):
     out.coverage['two_resource_scenarios_saves'] = n_saves
 
 
+def interleave_scenarios(ctx, out):
+    """Two saves of an untouched resource with a save of ANOTHER resource in between - another resource set,
+    another metamodel whose namespace no save of this process has seen yet: the second save writes the bytes of
+    the first, and so does a brand-new resource holding an equal model."""
+    common.use_repo()
+    from pyecore.ecore import EPackage, EClass, EAttribute, EString
+    from pyecore.resources import ResourceSet, URI
+    from pyecore.resources.json import JsonResource
+    rng = common.rng_for(ctx.seed, 'C16:interleave')
+    scratch = os.path.join(common.BUILD, 'scratch')
+    os.makedirs(scratch, exist_ok=True)
+    n = 0
+    for k in range(6 if ctx.tier == 'quick' else 30):
+        spec = gen_instance_spec(rng, 4)
+        spec['ext_uuid'] = False
+        spec['preset_ids'] = []
+        fmt = rng.choice(['xmi', 'xmi', 'json'])
+        other_fmt = rng.choice(['xmi', 'xmi', 'json'])
+        opts = {'use_uuid': False, 'serialize_default': rng.random() < 0.3, 'target': 'uri', 'xmi_type': False,
+                'indent': None}
+        tag = f'{ctx.seed}x{k}x{os.getpid()}'
+        hist = {'spec': spec, 'format': fmt, 'other_format': other_fmt, 'options': opts, 'k': k}
+        case = {'scenario': 'interleave', 'seed': ctx.seed, 'tier': ctx.tier, 'history': hist}
+        with tempfile.TemporaryDirectory(dir=scratch) as d, tempfile.TemporaryDirectory(dir=scratch) as d2:
+            a = build(spec, d, fmt, False)
+            if do_save(a, fmt, opts):
+                continue
+            a1 = read(a.path)
+            # the unrelated resource: its own resource set, its own metamodel, a namespace nobody has used yet
+            Q = EPackage('other' + tag, nsURI='http://verif/c16/other/' + tag, nsPrefix='o' + tag)
+            T = EClass('T')
+            T.eStructuralFeatures.append(EAttribute('name', EString))
+            Q.eClassifiers.append(T)
+            rs = ResourceSet()
+            rs.resource_factory['json'] = lambda uri, **kw: JsonResource(uri, **kw)
+            other = rs.create_resource(URI(os.path.join(d2, 'unrelated.' + other_fmt)))
+            other.append(T(name='t'))
+            try:
+                other.save()
+            except Exception:       # noqa: not this scenario's business
+                continue
+            n += 1
+            if do_save(a, fmt, opts):
+                continue
+            a2 = read(a.path)
+            if a1 != a2:
+                out.fail(sig('idempotence', fmt, 'other-resource-saved-in-between'), 'two saves of an untouched resource '
+                         f'differ after an unrelated {other_fmt} resource of another metamodel was saved in between: '
+                         + _firstdiff(a1, a2), case)
+            with tempfile.TemporaryDirectory(dir=scratch) as d3:
+                twin = build(spec, d3, fmt, False)
+                if not do_save(twin, fmt, opts) and read(twin.path) != a1:
+                    out.fail(sig('idempotence', fmt, 'other-resource-saved-in-between'), 'a brand-new resource holding '
+                             'an equal model wrote other bytes than the first save, an unrelated resource having been '
+                             'saved in between: ' + _firstdiff(a1, read(twin.path)), case)
+    out.coverage['interleaved_save_scenarios'] = n
+
+
 SCENARIOS = {'metaref': metaref_scenarios, 'export': export_scenarios, 'prefixless': prefixless_scenarios,
-             'twores': twores_scenarios}
+             'twores': twores_scenarios, 'interleave': interleave_scenarios}
 
 
 def option_grid(fmt, thorough):
@@ -1243,6 +1322,7 @@ def run(ctx, out):
     rng = ctx.rng
     scratch = os.path.join(common.BUILD, 'scratch')
     os.makedirs(scratch, exist_ok=True)
+    interleave_scenarios(ctx, out)      # first: before any other save of this process
     model = common.Model()
     stats = {'saves': 0, 'ok_saves_checked': 0, 'failing_saves_checked': 0, 'unsavable': 0, 'unsavable_examples': [],
              'faults': {}, 'fault_outcomes': {}, 'model_calls': 0, 'distinct': set(), 'samples': [],
